@@ -14,10 +14,7 @@ fn a16(b: &[u8]) -> Ipv6Address {
 }
 
 fn gen_nxt(r: &mut Rng) -> u8 {
-    match r.below(3) {
-        0 => *r.pick(&[6u8, 17, 58, 0, 43, 44, 59, 60, 41, 50, 51]),
-        _ => gen_u8(r),
-    }
+    draw_raw::<IpProtocol>(r) as u8
 }
 
 fn gen_emit(r: &mut Rng, _tier: &str) -> Vec<String> {
@@ -30,7 +27,7 @@ fn gen_emit(r: &mut Rng, _tier: &str) -> Vec<String> {
 
 fn gen_parse(r: &mut Rng, tier: &str) -> Vec<String> {
     let plen = gen_payload_len(r, tier, 1460).min(if r.chance(3, 4) { 40 } else { 1460 });
-    let repr = Ipv6Repr { src_addr: a16(&gen_ipv6(r)), dst_addr: a16(&gen_ipv6(r)), next_header: IpProtocol::from(gen_nxt(r)), payload_len: plen, hop_limit: gen_u8(r) };
+    let repr = Ipv6Repr { src_addr: a16(&gen_ipv6(r)), dst_addr: a16(&gen_ipv6(r)), next_header: of_raw::<IpProtocol>((gen_nxt(r)) as u32), payload_len: plen, hop_limit: gen_u8(r) };
     let mut base = vec![0u8; 40 + plen];
     repr.emit(&mut Ipv6Packet::new_unchecked(&mut base[..]));
     let p = gen_payload(r, plen);
@@ -50,7 +47,7 @@ fn run_op(op: &str) -> String {
         })
     };
     if op.starts_with("emit") {
-        let repr = Ipv6Repr { src_addr: a16(&kv.b("src")), dst_addr: a16(&kv.b("dst")), next_header: IpProtocol::from(kv.u("nxt") as u8), payload_len: kv.u("plen") as usize, hop_limit: kv.u("hop") as u8 };
+        let repr = Ipv6Repr { src_addr: a16(&kv.b("src")), dst_addr: a16(&kv.b("dst")), next_header: of_raw::<IpProtocol>((kv.u("nxt") as u8) as u32), payload_len: kv.u("plen") as usize, hop_limit: kv.u("hop") as u8 };
         let mut buf = kv.b("buf");
         match guard(|| repr.emit(&mut Ipv6Packet::new_unchecked(&mut buf[..]))) {
             None => "ret PANIC | -".to_string(),
